@@ -219,6 +219,25 @@ func (v *simView) Gen(rng *Rng, i int) string {
 	if rng.Chance(1, 6) {
 		cfg.limit = 60 + rng.Intn(200)
 	}
+	// a wide MGET whose own size is within the limit while its reassembled reply is not (each per-slot reply is):
+	// the limit applies to the merged reply as well
+	var wide []byte
+	if rng.Chance(1, 25) {
+		n := 7 + rng.Intn(6)
+		args := [][]byte{[]byte("mget")}
+		seen := map[int]bool{}
+		for len(args) < n+1 {
+			x := 100 + rng.Intn(900)
+			if x%10 == 0 || seen[x] { // (a key ending in 0 is an absent key)
+				continue
+			}
+			seen[x] = true
+			args = append(args, []byte(fmt.Sprintf("c0r0.%d", x)))
+		}
+		wide = encodeCmd(args)
+		merged := len(fakeReply(args))
+		cfg.limit = len(wide) + rng.Intn(merged-len(wide)+4) // mostly between the two sizes, sometimes just above
+	}
 	cfg.timeout = rng.Chance(1, 3)
 	if rng.Chance(1, 4) {
 		cfg.pw = "pw"
@@ -298,6 +317,18 @@ func (v *simView) Gen(rng *Rng, i int) string {
 			}
 		}
 		return res
+	}
+	if wide != nil {
+		g.emit(fmt.Sprintf("c 0 %s", hx(wide)))
+		g.nreq[0]++
+		for it := 0; it < 40 && run.crashed == ""; it++ {
+			g.emit("T")
+			pb := pendingBackends()
+			if len(pb) == 0 {
+				break
+			}
+			answer(pb[rng.Intn(len(pb))], false)
+		}
 	}
 	if rng.Chance(1, 120) {
 		// a long pipeline behind one slow request: more replies become deliverable at once than one writev takes
